@@ -8,8 +8,16 @@ import (
 	"crypto/cipher"
 	"encoding/binary"
 	"fmt"
+	"go/ast"
+	"go/parser"
+	"go/token"
 	"io"
+	"io/fs"
 	"log/slog"
+	"os"
+	"path/filepath"
+	"sort"
+	"strings"
 	"sync"
 	"sync/atomic"
 	"testing"
@@ -67,8 +75,88 @@ func (a *recAEAD) Open(dst, nonce, ciphertext, ad []byte) ([]byte, error) {
 	return a.inner.Open(dst, nonce, ciphertext, ad)
 }
 
+// callSites enumerates, over the whole repository (non-test, non-verif files), every call of
+// EncryptDanger, NextMessageCounter and of a mutating method of a `messageCounter` field, as
+// `<enclosing function>:<callee>`, sorted. The send-side model covers exactly the listed set.
+func callSites() string {
+	root := os.Getenv("VERIF_REPO")
+	if root == "" {
+		root = "/repo"
+	}
+	set := map[string]bool{}
+	fset := token.NewFileSet()
+	filepath.WalkDir(root, func(path string, d fs.DirEntry, err error) error {
+		if err != nil {
+			return nil
+		}
+		if d.IsDir() {
+			if strings.HasPrefix(d.Name(), ".") && path != root {
+				return filepath.SkipDir
+			}
+			return nil
+		}
+		name := d.Name()
+		if !strings.HasSuffix(name, ".go") || strings.HasSuffix(name, "_test.go") || strings.HasPrefix(name, "verif_") {
+			return nil
+		}
+		f, perr := parser.ParseFile(fset, path, nil, parser.ParseComments)
+		if perr != nil {
+			set["PARSE-ERROR:"+name] = true
+			return nil
+		}
+		for _, cg := range f.Comments {
+			if cg.Pos() < f.Package && strings.Contains(cg.Text(), "go:build") && strings.Contains(cg.Text(), "verif") {
+				return nil
+			}
+		}
+		for _, decl := range f.Decls {
+			fd, ok := decl.(*ast.FuncDecl)
+			if !ok || fd.Body == nil {
+				continue
+			}
+			fn := fd.Name.Name
+			if fd.Recv != nil && len(fd.Recv.List) > 0 {
+				t := fd.Recv.List[0].Type
+				if st, ok := t.(*ast.StarExpr); ok {
+					t = st.X
+				}
+				if id, ok := t.(*ast.Ident); ok {
+					fn = id.Name + "." + fn
+				}
+			}
+			ast.Inspect(fd.Body, func(n ast.Node) bool {
+				call, ok := n.(*ast.CallExpr)
+				if !ok {
+					return true
+				}
+				sel, ok := call.Fun.(*ast.SelectorExpr)
+				if !ok {
+					return true
+				}
+				switch sel.Sel.Name {
+				case "EncryptDanger", "NextMessageCounter":
+					set[fn+":"+sel.Sel.Name] = true
+				case "Add", "Store", "Swap", "CompareAndSwap", "And", "Or":
+					if inner, ok := sel.X.(*ast.SelectorExpr); ok && inner.Sel.Name == "messageCounter" {
+						set[fn+":messageCounter."+sel.Sel.Name] = true
+					}
+				}
+				return true
+			})
+		}
+		return nil
+	})
+	var out []string
+	for k := range set {
+		out = append(out, k)
+	}
+	sort.Strings(out)
+	return strings.Join(out, ",")
+}
+
 func gen(r *hlib.Rand, n int, tier, profile string, emit func(string, ...any)) {
-	ops := 0
+	emit("callsites")
+	ops := 1
 	base := 0 // thread ids are never reused across cases (they are arbitrary naturals)
 	for ops < n {
 		lock := r.Chance(1, 3)
@@ -95,10 +183,20 @@ func gen(r *hlib.Rand, n int, tier, profile string, emit func(string, ...any)) {
 			t := base + r.Intn(nthreads)
 			if lock {
 				// every send is one critical section
-				if !raced && r.Chance(1, 40) {
+				if !raced && r.Chance(1, 15) {
 					// real goroutines contend for writeLock around the real sendInsideEncrypt
 					raced = true
-					emit("lockrace %d %d", t, r.Range(2, 3))
+					pat := "hhh"
+					if c0 < reject-1000 {
+						// far from the ceiling the three send paths may be mixed (near it the final counter
+						// would depend on who wins the lock: only NextMessageCounter pins it)
+						k := "hvc"
+						pat = string([]byte{k[r.Intn(3)], k[r.Intn(3)], k[r.Intn(3)]})
+						if r.Chance(1, 3) {
+							pat = hlib.Pick(r, "hvh", "cvh", "vvv", "hvc")
+						}
+					}
+					emit("lockrace %d %d %s", t, r.Range(2, 3), pat)
 					ops++
 					continue
 				}
@@ -175,6 +273,7 @@ func newExec(t *testing.T) func([]string) string {
 	var cs *nebula.ConnectionState
 	var rec *recAEAD
 	var gate *gateCS
+	var sender *nebula.VerifCounterSender
 	var chacha, lockMode bool
 	nonceOf := func(n12 [12]byte) uint64 {
 		if chacha {
@@ -218,6 +317,9 @@ func newExec(t *testing.T) func([]string) string {
 		return sealed(before)
 	}
 	return func(a []string) string {
+		if a[0] == "callsites" {
+			return callSites()
+		}
 		if a[0] == "reset" {
 			c0 := hlib.Atou(a[1])
 			lockMode = a[2] == "1"
@@ -239,6 +341,7 @@ func newExec(t *testing.T) func([]string) string {
 			}
 			gate = &gateCS{inner: ek}
 			cs = nebula.VerifCounterNewCS(gate, c0)
+			sender = nebula.VerifCounterNewSender(l, cs, 7)
 			pend = map[int]pending{}
 			return "ok"
 		}
@@ -287,14 +390,27 @@ func newExec(t *testing.T) func([]string) string {
 				return "skip"
 			}
 			rounds := hlib.Atoi(a[2])
+			pat := "hhh"
+			if len(a) > 3 && len(a[3]) == 3 {
+				pat = a[3]
+			}
 			rec.mu.Lock()
 			start := len(rec.seq)
 			rec.mu.Unlock()
-			send := func(seg, scratch, nb []byte) {
-				nebula.VerifCounterSendInsideEncrypt(l, cs, 7, seg, scratch, nb)
+			// the three real send paths that reserve a counter: h = sendInsideEncrypt (data),
+			// v = prepareSendVia (relay), c = sendNoMetrics (control / test / lighthouse)
+			send := func(kind byte, payload, nb []byte) {
+				switch kind {
+				case 'v':
+					sender.PrepareSendVia(payload, nb, make([]byte, 0, 256))
+				case 'c':
+					sender.SendNoMetrics(payload, nb, make([]byte, 0, 256))
+				default:
+					sender.SendInsideEncrypt(payload, make([]byte, 0, 256), nb)
+				}
 			}
-			segA, scratchA, nbA := []byte("segment A"), make([]byte, 0, 128), make([]byte, 12)
-			segB, scratchB, nbB := []byte("segment B"), make([]byte, 0, 128), make([]byte, 12)
+			segA, nbA := []byte("payload of sender A"), make([]byte, 12)
+			segB, nbB := []byte("payload of sender B"), make([]byte, 12)
 			for r := 0; r < rounds; r++ {
 				base := nebula.VerifCounterLoad(cs)
 				aDone := make(chan struct{})
@@ -306,7 +422,7 @@ func newExec(t *testing.T) func([]string) string {
 					fired = true
 					go func() {
 						defer close(aDone)
-						send(segA, scratchA, nbA)
+						send(pat[1], segA, nbA)
 					}()
 					// let A get as far as it can while B is still inside EncryptDanger
 					deadline := time.Now().Add(8 * time.Millisecond)
@@ -316,11 +432,14 @@ func newExec(t *testing.T) func([]string) string {
 					time.Sleep(300 * time.Microsecond)
 				}
 				gate.hook.Store(&hook)
-				send(segB, scratchB, nbB)
-				send(segB, scratchB, nbB)
+				send(pat[0], segB, nbB)
 				if !fired {
+					// B never reached the cipher (NextMessageCounter refused): A simply goes next
+					fired = true
+					send(pat[1], segA, nbA)
 					close(aDone)
 				}
+				send(pat[2], segB, nbB)
 				select {
 				case <-aDone:
 				case <-time.After(5 * time.Second):
